@@ -82,8 +82,12 @@ def main():
         rec = {"file": path, "line": ln + 1, "kind": kind, "before": before.strip()[:160], "after": lines[ln].strip()[:160]}
         try:
             r = sh("cd %s/tools && python3 join.py" % REPO)
-            s = sh("REPO=%s bash %s/tools/baseline.sh 2>&1 | tail -3" % (REPO, VERIF), timeout=900)
-            rec["suite"] = "pass" if "Status: SUCCESS" in s.stdout else ("fail" if "FAILURE" in s.stdout or "failed" in s.stdout else "no-build")
+            try:
+                s = sh("REPO=%s timeout 240 bash %s/tools/baseline.sh 2>&1 | tail -3" % (REPO, VERIF), timeout=300)
+                rec["suite"] = "pass" if "Status: SUCCESS" in s.stdout else ("fail" if "FAILURE" in s.stdout or "failed" in s.stdout else "no-build")
+            except subprocess.TimeoutExpired:
+                sh("pkill -f ffsm2_test")
+                rec["suite"] = "hang"
             if rec["suite"] == "pass":
                 fp = sh("cd %s && python3 tools/fingerprint.py | tail -1" % VERIF).stdout
                 try:
